@@ -233,6 +233,8 @@ static void explore(Twin& t, const std::string& hist, int depth, int fd, unsigne
         const std::string h2 = hist + ev;
         pid_t p = fork();
         if (p == 0) {
+            // siblings that run concurrently must not share block/undo files
+            if (par > 1) t.n.RepointBlocksDir(t.n.BlocksDir() / fs::PathFromString("w" + std::to_string(getpid())));
             std::string out = t.apply(ev);
             put(fd, h2 + "\t" + out);
             if (depth > 1) explore(t, h2, depth - 1, fd, 1);
@@ -250,7 +252,9 @@ static int run_twin(bool reference, int family, int depth, const std::string& fi
     if (fd < 0) return 3;
     try {
         Twin t(reference, family);
+        double t0 = vx::elapsed();
         explore(t, "", depth, fd, par);
+        fprintf(stderr, "[C13] twin %s family %d depth %d: %.1fs\n", reference ? "B" : "A", family, depth, vx::elapsed() - t0);
     } catch (const std::exception& e) {
         put(fd, std::string("#ERROR\t") + e.what());
         close(fd);
@@ -351,7 +355,8 @@ int main(int argc, char** argv)
         }
         return 0;
     }
-    const int depth[3] = {0, big ? 4 : 3, big ? 4 : 3};
+    const int dd = getenv("VERIF_C13_DEPTH") ? atoi(getenv("VERIF_C13_DEPTH")) : (big ? 4 : 3);
+    const int depth[3] = {0, dd, dd};
     const unsigned par = std::max(1u, std::min(vx::ncpu(), 8u) / 2);
     uint64_t transitions = 0, diffs = 0, max_script = 0, max_sig = 0, ref_fill = 0;
     std::map<std::string, uint64_t> verdicts;
